@@ -2,7 +2,7 @@
 
 import re
 
-from vf.ref.agp_ref import Invalid, is_blank
+from vf.ref.agp_ref import Invalid, _lines, is_blank
 
 STRAND_TXT = {1: "PLUS", -1: "MINUS"}
 TXT_STRAND = {v: k for k, v in STRAND_TXT.items()}
@@ -40,7 +40,7 @@ def parse(text):
     scaffolds = []
     acct = []
     cur = None
-    for ln, line in enumerate(text.splitlines(), 1):
+    for ln, line in enumerate(_lines(text), 1):
         if is_blank(line):
             continue
         if line.startswith("#"):
